@@ -254,6 +254,12 @@ def search(ctx):
         ctx.case(["gi-s", core.tolist(sc["x"]), steps], nontrivial=True)
         if isinstance(r, core.ImplError) or not np.all(np.isfinite(np.asarray(ref.centroids_, float))):
             continue
+        vw = core.impl(lambda: ref.get_variances_and_weights_for_each_cluster(sc["x"]))
+        if not isinstance(vw, core.ImplError) and not np.array_equal(np.asarray(g.weights, dtype=float), np.asarray(vw[1], dtype=float)) and "gmm-init-not-kmeans-weights" not in seen:
+            # ... and from exactly its cluster weights (a centroid that attracted nothing has weight 0; they sum to one)
+            seen.add("gmm-init-not-kmeans-weights")
+            fails.append({"sig": "gmm-init-not-kmeans-weights", "what": f"{steps} k-means iteration(s): GMM weights {np.asarray(g.weights).tolist()} vs k-means cluster weights {np.asarray(vw[1]).tolist()}",
+                          "input": {"gmm_init": True, "K": sc["K"], "x": sc["x"], "x_dtype": str(np.asarray(sc["x"]).dtype), "cent": sc["cent"], "steps": steps}})
         if not np.array_equal(np.asarray(g.means, dtype=float), np.asarray(ref.centroids_, dtype=float)) and "gmm-init-not-kmeans-centroids" not in seen:
             seen.add("gmm-init-not-kmeans-centroids")
             fails.append({"sig": "gmm-init-not-kmeans-centroids", "what": f"{np.asarray(sc['x']).dtype} data, {steps} k-means iteration(s): GMM means {np.asarray(g.means).tolist()} vs k-means centroids {np.asarray(ref.centroids_).tolist()}",
@@ -299,6 +305,9 @@ def replay(d):
         ref = KMeansMachine(i["K"], init_method=np.array(i["cent"], dtype=float), max_iter=i["steps"], convergence_threshold=None).fit(x)
         if not np.array_equal(np.asarray(g.means, dtype=float), np.asarray(ref.centroids_, dtype=float)):
             return {"sig": "gmm-init-not-kmeans-centroids", "what": f"{np.asarray(g.means).tolist()} vs {np.asarray(ref.centroids_).tolist()}"}
+        vw = ref.get_variances_and_weights_for_each_cluster(x)
+        if not np.array_equal(np.asarray(g.weights, dtype=float), np.asarray(vw[1], dtype=float)):
+            return {"sig": "gmm-init-not-kmeans-weights", "what": f"{np.asarray(g.weights).tolist()} vs {np.asarray(vw[1]).tolist()}"}
         return None
     if "many_seed" in d["input"]:
         return oracle(many_scenario(d["input"]["many_seed"]))
